@@ -282,6 +282,8 @@ func ruleC04R4(r *Run) {
 			name := fnName(fn)
 			ok := false
 			detail := "no membership test by value found"
+			memberTable := ""
+			var memberTest ssa.Instruction
 			// (a) comma-ok lookup with value-typed key; Next dominated by the not-found edge
 			allInstrs(fn, func(ins ssa.Instruction) {
 				lk, isL := ins.(*ssa.Lookup)
@@ -311,6 +313,7 @@ func ruleC04R4(r *Run) {
 						if edgeDominates(ifs.Block(), ifs.Block().Succs[1], c.Block()) {
 							ok = true
 							detail = "comma-ok lookup in " + src + " keyed by value type " + typeStr(lk.Index.Type()) + "; Next only on the not-found edge"
+							memberTable, memberTest = src, lk
 						}
 					})
 				}
@@ -346,10 +349,33 @@ func ruleC04R4(r *Run) {
 					if !reachesWithoutBlock(ifs.Block().Succs[0], c.Block()) {
 						ok = true
 						detail = "== on values of type " + typeStr(bo.X.Type()) + " over the existing table; the equal edge cannot reach Next"
+						for _, l := range append(xl, yl...) {
+							if strings.HasPrefix(l, "rangeval:field:") {
+								memberTable = strings.TrimPrefix(l, "rangeval:field:")
+							}
+						}
 					}
 				}
 			})
 			r.Check(name+" "+gen[strings.LastIndexByte(gen, '.')+1:], ok, posOf(p, c), name, detail)
+			if ok && memberTable != "" {
+				// the table the membership test reads must record the new value before the test can run again
+				w := reachesWithout(c, func(ins ssa.Instruction) bool {
+					return isReturn(ins) || (memberTest != nil && ins == memberTest)
+				}, func(ins ssa.Instruction) bool {
+					mu, isMU := ins.(*ssa.MapUpdate)
+					if !isMU {
+						return false
+					}
+					if u, isU := mu.Map.(*ssa.UnOp); isU {
+						return fieldKeyOfAddr(u.X) == memberTable
+					}
+					return false
+				})
+				r.Check(name+" "+gen[strings.LastIndexByte(gen, '.')+1:]+" recorded", w == nil, posOf(p, w), name,
+					"after minting an alias, the table the membership test reads ("+memberTable+") must be updated before the test runs again or the function returns; otherwise the same value met twice gets two aliases",
+					"entry: "+name, "alias minted: "+posOf(p, c), "reaches without recording: "+posOf(p, w))
+			}
 		}
 	}
 }
